@@ -1,5 +1,5 @@
-//! Shared helpers for the correspondence harness: one PRNG, operand generators,
-//! printers that emit Coq terms, and syscall stubs.
+//! Helpers for the SDK-side correspondence harness (copy of harness/src/lib.rs without vmarket:
+//! linking the main harness crate would drag the store program in with another feature set).
 use std::fmt::Write as _;
 
 /// SplitMix64 — every random choice of every driver derives from one state.
@@ -156,8 +156,3 @@ pub fn no_panic<R>(f: impl FnOnce() -> R + std::panic::UnwindSafe) -> Option<R> 
 pub fn silence_panics() {
     std::panic::set_hook(Box::new(|_| {}));
 }
-pub mod vmarket;
-pub mod g6rt;
-pub mod g7rt;
-pub mod ps;
-pub mod mkdrv;
